@@ -96,6 +96,23 @@ DEPENDENT_GROUPS = [
 ]
 
 
+_KLCD = ["gs.mp.amplitude(1,pphh,klcd)", "itmd.t2_2.expand_itmd(klcd,once)",
+         "itmd.t1_2.expand_itmd(jb,once)", "gs.mp.amplitude(2,ph,jb)"]
+_IJAB = ["gs.mp.amplitude(1,pphh,ijab)", "m.mp.pp.isr_matrix_block(1,ph,ph,ia,jb)",
+         "gs.mp.amplitude(2,ph,ia)", "itmd.t2_2.expand_itmd(ijab,once)"]
+REJECTED_THEN_USE = [
+    ("bad.gs.amplitude(1,pphh,kl,cd)", _KLCD),
+    ("bad.itmd.t2_1.expand_itmd(kl;cd)", _KLCD),
+    ("bad.get_symbols(cdkl,spins=abx)", _KLCD),
+    ("bad.get_symbols(ijab?)", _IJAB),
+    ("bad.gs.amplitude(2,ph,ij)", _IJAB),
+    ("bad.gs.amplitude(2,ph,j4x)", ["gs.mp.psi(2,bra)", "gs.mp.psi(2,ket)", "gs.mp.norm_factor(2)"]),
+    ("bad.get_symbols(m5e5z)", ["gs.mp.psi(2,bra)", "gs.mp.psi(2,ket)", "gs.mp.psi(2,ket)",
+                                "gs.mp.norm_factor(2)"]),
+    ("bad.gs.amplitude(1,pphh,k4l4c4)", ["gs.mp.psi(2,bra)", "gs.mp.psi(2,ket)",
+                                         "gs.mp.psi(2,ket)"]),
+]
+
 TWINS = [
     ("gs.mp.expectation_value(2,1)", "gs.mp.expectation_value(1,2)"),
     ("gs.mps.expectation_value(2,1)", "gs.mps.expectation_value(1,2)"),
@@ -215,6 +232,20 @@ def run(tier, seed):
                                  "run": f"twins-{x}-{fx}-{y}-{fy}", "env": pool[0],
                                  "params": DEFAULT_PARAMS, "steps": steps,
                                  "ref": ref_for(ref, steps), "timeout": 900})
+    # a request rejected half-way, then derivations that consume generic indices, then
+    # requests whose explicit target names are the names the rejected request had touched
+    for b, probes in REJECTED_THEN_USE:
+        for consumers in (["op.mp.h1"], ["gs.mp.energy(2)", "gs.mp.psi(2,ket)"],
+                          [{"op": "reg.generic", "kw": {"occ": 9, "virt": 9}},
+                           {"op": "reg.generic", "kw": {"occ": 9, "virt": 9}}]):
+            for shared in (True, False):
+                steps = [{"op": "bad", "t": b}]
+                steps += [c if isinstance(c, dict) else {"op": "req", "t": c}
+                          for c in consumers]
+                steps += [{"op": "req", "t": t} for t in probes if t in ref]
+                jobs.append({"kind": "c19", "seed": seed, "run": f"rejected-{b}-{len(jobs)}",
+                             "env": pool[0], "params": dict(DEFAULT_PARAMS, shared=shared),
+                             "steps": steps, "ref": ref_for(ref, steps), "timeout": 900})
     submit(jobs, "systematic")
     log(f"[C19] systematic histories: {len(jobs)} runs, {time.time() - t0:.0f}s")
 
